@@ -254,17 +254,18 @@ def name_checks(F, M, V, cls, stats=None, latex=True, fam='history'):
         stats['names_compared'] += n
     if not aligned:
         return
-    # the default label format is a parameter
-    try:
-        got2 = list(F.all_variable_labels(default_label_format='y_{}'))
-    except Exception as e:
-        V.bad('all_variable_labels:default_label_format:exception:%s' % type(e).__name__, repr(e))
-        got2 = None
-    if got2 is not None:
-        ref2 = M.reference_names('y_{}')
-        if len(got2) != n or ref.compare_names(got2, ref2) is not None:
-            V.bad('all_variable_labels:default_label_format',
-                  'with default_label_format="y_{}": %r, reference %r' % (got2[:12], ref2[:12]))
+    # the default label format is a parameter (any format string with one field)
+    for dfmt in ('y_{}', 'x_{{{}}}', 'v{0}', 'n{:03d}', '{}'):
+        try:
+            got2 = list(F.all_variable_labels(default_label_format=dfmt))
+        except Exception as e:
+            V.bad('all_variable_labels:default_label_format:exception:%s' % type(e).__name__, repr(e))
+            got2 = None
+        if got2 is not None:
+            ref2 = M.reference_names(dfmt)
+            if len(got2) != n or ref.compare_names(got2, ref2) is not None:
+                V.bad('all_variable_labels:default_label_format',
+                      'with default_label_format=%r: %r, reference %r' % (dfmt, got2[:12], ref2[:12]))
     # varname lines of the files
     want = [(i, str(g)) for i, g in enumerate(got, start=1)]
     fmts = [('opb', '* varname x')] if cls == 'OPB' else [('dimacs', 'c varname '), ('opb', '* varname x')]
